@@ -20,7 +20,7 @@ Record pel := { pe_kind : N; pe_path : list bytes; pe_types : list bytes }.
    template, variables, post-processing, entity flags: one label), the fetch path *)
 Record lfetch := { lf_id : nat; lf_deps : list nat; lf_ds : N; lf_req : N; lf_path : list pel }.
 
-Definition strip (f : lfetch) : fetch := {| fid := lf_id f; fdeps := lf_deps f |}.
+Definition strip (f : lfetch) : fetch := mkf (lf_id f) (lf_deps f).
 Definition lids (l : list lfetch) : list nat := map lf_id l.
 
 Fixpoint list_bytes_eqb (a b : list bytes) : bool :=
